@@ -11,7 +11,7 @@ PROPERTY = "C13"
 RULE = (
     "configurations = means x variance pairs (1e-8..1e2, thorough 1e-12..1e8) x correlations (both sides of every branch threshold "
     "0.3/0.75/0.925, up to |r|=0.99999) x entry points (gaussian, bvn_cdf, sbvn_cdf, norm_cdf, uniform); "
-    "each evaluated on the full 17x17 grid of standardised points {-1000,-200,-40,-8..8,40,200,1000}^2 (far tails included) and compared point by "
+    "each evaluated on the full 17x17 grid of standardised points {-1000,-200,-40,-8..8,40,200,1000}^2 (far tails included) plus 300 points on the tail shoulders (3..7 sigma in fine steps x 5 partner values, both axes) and compared point by "
     "point with Plackett's-formula reference; CDF axioms (range, monotone, rectangle mass, tails) on "
     "every grid cell. state = one configuration; transition = one kernel call; non-trivial = "
     "correlated configuration (r != 0) or uniform box cut by the grid."
@@ -22,6 +22,8 @@ H_T = [-1e5, -1000.0, -300.0, -100.0, -40.0, -12.0, -8.0, -6.0, -4.0, -3.0, -2.0
 H = H_Q
 RS_POS = [0.1, 0.29, 0.3, 0.31, 0.5, 0.74, 0.75, 0.76, 0.9, 0.92, 0.925, 0.93, 0.95, 0.99, 0.999, 0.99999]
 TOL = 1e-7
+TAILS = [3.0, 3.5, 4.0, 4.25, 4.5, 4.75, 5.0, 5.02, 5.1, 5.19, 5.3, 5.6, 6.0, 6.5, 7.0]
+TAIL_PARTNERS = [-2.0, -0.5, 0.0, 1.0, 3.0]
 
 
 def configs(tier):
@@ -144,6 +146,22 @@ def run_case(case, ctx):
             if not np.all(np.abs(v - prod) <= 1e-14):
                 ctx.violation("zero-covariance-product", "%s with zero covariance is not the product of the marginals" % name,
                               observed=float(np.max(np.abs(v - prod))))
+    # the shoulders of the tails, 3..7 standard deviations out, in steps fine enough that a cut-off of the
+    # kernel ("no mass beyond c sigma") shows as an error above 1e-7 for every c up to 5.2
+    if vx in (1.0, 0.01) and vy in (1.0, 100.0):
+        pts = [(s_ * t, c) for t in TAILS for s_ in (-1.0, 1.0) for c in TAIL_PARTNERS] + [(c, s_ * t) for t in TAILS for s_ in (-1.0, 1.0) for c in TAIL_PARTNERS]
+        xt = np.array([mu[0] + a * sx for a, _ in pts])
+        yt = np.array([mu[1] + b * sy for _, b in pts])
+        reft = np.array([phi2(float((a_ - mu[0]) / sx), float((b_ - mu[1]) / sy), float(r_eff)) for a_, b_ in zip(xt, yt)])
+        vt = np.asarray(ctx.call(ik.gaussian, xt, yt, mu=np.array(mu), sigma=sigma), dtype=float)
+        ctx.valid(len(reft))
+        errt = np.abs(vt - reft) if vt.shape == reft.shape else np.array([np.inf])
+        if not np.all(errt <= TOL):
+            i = int(np.nanargmax(errt)) if vt.shape == reft.shape else 0
+            ctx.violation("accuracy", "gaussian differs from the reference bivariate normal CDF by more than 1e-7 on the tail shoulders",
+                          observed=float(vt[i]) if vt.shape == reft.shape else list(vt.shape), expected=float(reft[i]),
+                          extra={"h": pts[i][0], "k": pts[i][1], "r": r})
+        ctx.nontriv("tail_shoulders")
     # a long array (the grid tiled to ~5000 points): block-wise evaluation must not depend on the position
     if case.get("grid") != "T" and abs(r) in (0.0, 0.5, 0.93, 0.99999):
         reps = 5000 // len(x) + 1
